@@ -254,7 +254,10 @@ func (v *V) callStatic(e *Env, fn *types.Func, recv *Val, call *ast.CallExpr) []
 		return r
 	}
 	fs := v.prog.findContract(fn, v.pkg.path)
-	if fs != nil && !(fs.Inline) {
+	otherMode := fs != nil && fs.Mode != "" && fs.Mode != "any" && fs.Mode != v.d.mode.String()
+	if fs != nil && (!fs.Inline || otherMode) {
+		// (an `inline` callee whose contract is in the other integer mode is not inlined: its body
+		// would be translated in the wrong arithmetic; the call is opaque there)
 		args := v.evalArgs(e, sig, call)
 		return v.applyContract(e, fs, fn, recv, args, call)
 	}
